@@ -43,6 +43,8 @@ def scn(sym, cov, props, children, body="fall", env=(), eager=False, T=1, J=2):
     b = [sym.int("b%d" % i, 0, T) for i in range(n)]
     v = [sym.int("v%d" % i, 0, 1000) for i in range(n)]
     c = sym.int("c", 0, T)
+    if "spawn" in env and n == 0:
+        a, b, v = [sym.int("ax", 0, T)], [0], [sym.int("vx", 0, 1000)]
     acts = []
     for k, kind in enumerate(env):
         acts.append({"kind": kind, "t": sym.int("et%d" % k, 0, 2 * T + 1), "j": sym.int("ej%d" % k, 0, J)})
@@ -165,6 +167,14 @@ def scn(sym, cov, props, children, body="fall", env=(), eager=False, T=1, J=2):
                 if t is not None and not t.done():
                     state["native_child"] = True
                     t.cancel()
+            elif k == "spawn":
+                # somebody else holding the task group starts a task in it (e.g. a BlockingPortal call)
+                if "tg" in tgref:
+                    try:
+                        tgref["tg"].start_soon(child, "ext", "R", 0, tgref["tg"])
+                        state["ext_spawn"] = "accepted-after-exit" if state["exited"] else "accepted"
+                    except RuntimeError:
+                        state["ext_spawn"] = "refused"
             elif k == "handle0":
                 h = handles.get("c0")
                 if h is not None:
@@ -299,4 +309,6 @@ def scn(sym, cov, props, children, body="fall", env=(), eager=False, T=1, J=2):
     cov.hit("grandchild-joined", any(k.endswith(".g") for k in rec))
     cov.hit("shielded-cleanup-ran", any(r["cancel_seen"] and r["outcome"] == "cancelled" for r in rec.values()))
     cov.hit("host-native-cancel-in-aexit", state.get("native_host", 0) >= 1)
+    cov.hit("external-spawn-accepted", state.get("ext_spawn") == "accepted")
+    cov.hit("external-spawn-refused", state.get("ext_spawn") == "refused")
     chk(not viol, viol[0][0] if viol else "", viol[:3])
